@@ -141,3 +141,20 @@ Proof. exact make_1d_grid_accepts_monotone. Qed.
 
 Print Assumptions C09_grid_guard_sound.
 Print Assumptions C09_grid_accepts_monotone_faces.
+
+(* ---------------------------------------------------------------------------------------------------------------
+   The two-gradient trigonometric branch as a FUNCTION of the index (mean-value theorem on C09_monotone_trig_partial's
+   gradient): non-decreasing in the sense of upper - lower on the interior of its guard, and STRICTLY monotone there when
+   both prescribed end gradients have, strictly, the sign of upper - lower -- for every n, every pair of boundary values
+   in either order and every pair of indices (not only grid indices). *)
+From HT Require Import Proof_RadialMono.
+Theorem C09_monotone_trig_function : forall (erf : R -> R) n lower upper gl gu, 0 < n ->
+  0 <= (upper - lower) * a_tr n lower upper gl gu ->
+  (0 <= (upper - lower) * gl -> 0 <= (upper - lower) * gu -> forall i1 i2, i1 <= i2 ->
+     0 <= (radial_both_trig Rops erf n lower upper gl gu i2 - radial_both_trig Rops erf n lower upper gl gu i1) * (upper - lower)) /\
+  (0 < (upper - lower) * gl -> 0 < (upper - lower) * gu -> forall i1 i2, i1 < i2 ->
+     0 < (radial_both_trig Rops erf n lower upper gl gu i2 - radial_both_trig Rops erf n lower upper gl gu i1) * (upper - lower)).
+Proof.
+  intros erf n lower upper gl gu Hn Ha. split; intros; [apply tr_function_monotone | apply tr_function_strict]; assumption.
+Qed.
+Print Assumptions C09_monotone_trig_function.
